@@ -7,6 +7,7 @@ import (
 
 	sdkmath "cosmossdk.io/math"
 	sdk "github.com/cosmos/cosmos-sdk/types"
+	"github.com/ethereum/go-ethereum/common"
 
 	cctypes "github.com/functionx/fx-core/v8/x/crosschain/types"
 )
@@ -43,7 +44,41 @@ type c05Chain struct {
 }
 
 type c05Model struct {
-	ch map[string]*c05Chain
+	ch                map[string]*c05Chain
+	recipientReported map[string]bool
+	callPre           map[string]sdkmath.Int // holdings (all representations) of the refund address and the sender of every live bridge call, before the step
+}
+
+// holdingsOf: what addr owns of a base denom on fxcore, whatever the representation (coin, ERC-20 of its pair).
+func holdingsOf(w *World, ctx sdk.Context, addr []byte, base string) sdkmath.Int {
+	h := w.App.BankKeeper.GetBalance(ctx, addr, base).Amount
+	if pair, ok := w.App.Erc20Keeper.GetTokenPair(ctx, base); ok {
+		h = h.Add(sdkmath.NewIntFromBigInt(w.ERC20Balance(ctx, pair.GetERC20Contract(), common.BytesToAddress(addr))))
+	}
+	return h
+}
+
+func (m *c05Model) before(r *Run) {
+	w := r.W
+	ctx := w.Ctx()
+	st := bst(r)
+	m.callPre = map[string]sdkmath.Int{}
+	for _, ch := range st.Chains {
+		mc := m.ch[ch.Name]
+		for n, rec := range mc.calls {
+			if rec.State != "live" {
+				continue
+			}
+			for _, who := range []string{rec.Rec.Refund, rec.Rec.Sender} {
+				addr := cctypes.ExternalAddrToAccAddr(ch.Name, who)
+				for _, tk := range rec.Rec.Tokens {
+					if t := ch.tokenByContract(tk.Contract); t != nil {
+						m.callPre[fmt.Sprintf("%s|%d|%s|%s", ch.Name, n, who, t.Base)] = holdingsOf(w, ctx, addr, t.Base)
+					}
+				}
+			}
+		}
+	}
 }
 
 func newC05(st *BridgeSt) *c05Model {
@@ -52,6 +87,22 @@ func newC05(st *BridgeSt) *c05Model {
 		m.ch[c.Name] = &c05Chain{xfers: map[uint64]*xferRec{}, calls: map[uint64]*callRec{}, batches: map[string]bool{}, bothReported: map[uint64]bool{}}
 	}
 	return m
+}
+
+// onlyOracleTraffic: every delivered transaction of the step was signed by a bridger or an oracle key.
+func onlyOracleTraffic(o *Outcome) bool {
+	if o == nil {
+		return false
+	}
+	for _, t := range o.Txs {
+		if t.Tx == nil {
+			continue
+		}
+		if !strings.HasPrefix(t.Tx.S, "bridger/") && !strings.HasPrefix(t.Tx.S, "oracle/") {
+			return false
+		}
+	}
+	return true
 }
 
 func okTxs(o *Outcome, kind string) []TxOutcome {
@@ -387,6 +438,7 @@ func (m *c05Model) check(r *Run, c *bridgeChecks, s *Step, o *Outcome) []Violati
 				vs = append(vs, viol("record-immutable", "bridge-call-record-changed", "%s: bridge call %d changed", ch.Name, bc.Nonce))
 			}
 		}
+		var refundedNow []uint64
 		var cns []uint64
 		for n := range mc.calls {
 			cns = append(cns, n)
@@ -421,6 +473,64 @@ func (m *c05Model) check(r *Run, c *bridgeChecks, s *Step, o *Outcome) []Violati
 				}
 			}
 			r.Nontrivial = true
+			if rec.State == "refunded" {
+				refundedNow = append(refundedNow, n)
+			}
+		}
+		// a refunded call pays exactly its tokens to its refund address (in whatever representation) - judged in
+		// steps whose transactions are all oracle traffic, so that nothing else moves users' holdings
+		if len(refundedNow) > 0 && onlyOracleTraffic(o) {
+			type key struct{ who, base string }
+			want := map[key]sdkmath.Int{}
+			var order []key
+			involved := map[string]bool{}
+			for _, n := range refundedNow {
+				rec := mc.calls[n]
+				involved[rec.Rec.Refund], involved[rec.Rec.Sender] = true, true
+				for _, tk := range rec.Rec.Tokens {
+					if t := ch.tokenByContract(tk.Contract); t != nil {
+						k := key{rec.Rec.Refund, t.Base}
+						if cur, ok := want[k]; ok {
+							want[k] = cur.Add(tk.Amount)
+						} else {
+							want[k] = tk.Amount
+							order = append(order, k)
+						}
+					}
+				}
+			}
+			for _, n := range refundedNow {
+				rec := mc.calls[n]
+				for _, who := range []string{rec.Rec.Refund, rec.Rec.Sender} {
+					for _, tk := range rec.Rec.Tokens {
+						t := ch.tokenByContract(tk.Contract)
+						if t == nil {
+							continue
+						}
+						pre, ok := m.callPre[fmt.Sprintf("%s|%d|%s|%s", ch.Name, n, who, t.Base)]
+						if !ok {
+							continue
+						}
+						got := holdingsOf(w, w.Ctx(), cctypes.ExternalAddrToAccAddr(ch.Name, who), t.Base).Sub(pre)
+						exp := sdkmath.ZeroInt()
+						if v, ok := want[key{who, t.Base}]; ok {
+							exp = v
+						}
+						if !got.Equal(exp) && !m.recipientReported[fmt.Sprintf("%s|%d|%s", ch.Name, n, who)] {
+							if m.recipientReported == nil {
+								m.recipientReported = map[string]bool{}
+							}
+							m.recipientReported[fmt.Sprintf("%s|%d|%s", ch.Name, n, who)] = true
+							role := "refund-address"
+							if who != rec.Rec.Refund {
+								role = "sender"
+							}
+							vs = append(vs, viol("refund-exact", "bridge-call/"+role+"/"+t.Kind, "%s: outgoing bridge call %d (sender %s, refund address %s) was refunded: holdings of the %s in %s changed by %s, expected %s", ch.Name, n, rec.Rec.Sender, rec.Rec.Refund, role, t.Base, got, exp))
+						}
+					}
+				}
+			}
+			r.Probe("bridge-call-refund-recipient-checked")
 		}
 		// requested bridge call is what is queued
 		for _, t := range okTxs(o, "bridge_call") {
